@@ -178,6 +178,9 @@ func runWin(sc WinScenario) (evs []Ev, inconclusive string) {
 	var gates []string
 	if !sc.Free {
 		gates = []string{p + ".trig", p + ".fired"}
+		if sc.Cfg.Kind == "sliding" { // the model separates the delivery from taking the lock again (step "relock")
+			gates = append(gates, p+".sent")
+		}
 	} else if sc.Burst {
 		gates = []string{p + ".trig"}
 	}
@@ -296,11 +299,30 @@ func runWin(sc WinScenario) (evs []Ev, inconclusive string) {
 			}
 			in.Log(Ev{"tr": sc.Tr, "e": "send"})
 			in.Release(p + ".fired")
-			if !in.WaitFor(T, func() bool { return in.arrived[p+".fired"] > f || in.C(p+".trigdone") > b }) {
+			if sc.Cfg.Kind == "sliding" {
+				// the result is handed over; the trigger goroutine waits at its gate before it takes the window lock again
+				if !in.WaitFor(T, func() bool { return in.NWaiting(p+".sent") > 0 }) {
+					return in.Events(), "send did not reach sent"
+				}
+			} else if !in.WaitFor(T, func() bool { return in.arrived[p+".fired"] > f || in.C(p+".trigdone") > b }) {
 				return in.Events(), "send did not complete"
 			}
 			if !in.WaitFor(T, delivered) {
 				return in.Events(), "delivery not consumed"
+			}
+		case "relock":
+			in.mu.Lock()
+			nw := len(in.waiting[p+".sent"])
+			b := in.count[p+".trigdone"]
+			f := in.arrived[p+".fired"]
+			in.mu.Unlock()
+			if nw == 0 {
+				return in.Events(), "relock step but trigger goroutine is not at sent"
+			}
+			in.Log(Ev{"tr": sc.Tr, "e": "relock"})
+			in.Release(p + ".sent")
+			if !in.WaitFor(T, func() bool { return in.arrived[p+".fired"] > f || in.C(p+".trigdone") > b }) {
+				return in.Events(), "relock did not complete"
 			}
 		}
 	}
